@@ -395,6 +395,16 @@ class C19(object):
         lyb = geo.sample_to_lab(sx, sy, y0, dty, omega)[1]
         if viol is None and np.abs(lyb).max() > 1e-9 * scale:
             viol = V("in-beam-dty-wrong", "lab y of the sample point at the dty said to bring it into the beam is %g" % np.abs(lyb).max())
+        if viol is None:
+            # the interlaced pass: the caller's angle array is shifted in place and the in-beam positions are asked for again
+            om_ip = np.array(omega, float)
+            geo.dty_values_grain_in_beam(sx, sy, y0, om_ip)
+            om_ip += 0.25
+            d_ip = geo.dty_values_grain_in_beam(sx, sy, y0, om_ip)
+            ly_ip = geo.sample_to_lab(sx, sy, y0, d_ip, om_ip)[1]
+            if np.abs(ly_ip).max() > 1e-9 * scale:
+                viol = V("in-beam-dty-wrong", "after the caller shifted its angle array in place (+0.25 degrees), the dty said to bring the point "
+                                              "into the beam leaves it %g from the beam" % float(np.abs(ly_ip).max()))
         dtyi = geo.dty_to_dtyi(dty, ystep, ymin)
         if viol is None and np.abs(geo.dtyi_to_dty(dtyi, ystep, ymin) - dty).max() > 0.5 * ystep * (1 + 1e-9):
             viol = V("dtyi-rounding", "dty_to_dtyi is not the nearest step")
